@@ -49,7 +49,7 @@ CHECKS = {
         tsan(args={"quick": {"part": "stress", "budget-s": 25}, "thorough": {"part": "stress", "budget-s": 300}}),
     ]},
     "C01": {"crate": "h_chain", "bin": "c01", "level": "exploration", "legs": [
-        native(),
+        native(args={"quick": {"drain": 1}, "thorough": {"drain": 1}}),
         asan(tiers=["thorough"], args={"thorough": {"budget-s": 240, "cases": 4000, "floor-pct": 2, "threads": 8}}),
     ]},
     "C02": {"crate": "h_store", "bin": "c02", "level": "fault_enumeration", "legs": [
